@@ -450,7 +450,10 @@ impl Case {
     // nodes): a well-founded recursive rule may need time exponential in the tree size, which is
     // not a failure to terminate
     let small = self.family.starts_with("cycle:") || self.family == "raw";
-    json!({"globals": self.globals, "rule": self.rule, "small": small}).to_string()
+    // thorough tier: the longer token strings (length 3) are visited by every family except the
+    // pair substitutions, whose accepted configurations are too many (about 10^5)
+    let deep = !self.family.ends_with(":pair");
+    json!({"globals": self.globals, "rule": self.rule, "small": small, "deep": deep}).to_string()
   }
 }
 
@@ -1037,12 +1040,12 @@ const CRAFTED_JS: &[&str] = &[
 struct Sources {
   g0: Option<GlobalRules<SupportLang>>,
   thorough: bool,
-  cache: HashMap<SupportLang, Vec<(AstGrep<D>, bool)>>,
+  cache: HashMap<(SupportLang, bool), Vec<(AstGrep<D>, bool)>>,
 }
 impl Sources {
-  fn get(&mut self, lang: SupportLang) -> &Vec<(AstGrep<D>, bool)> {
-    let thorough = self.thorough;
-    self.cache.entry(lang).or_insert_with(|| {
+  fn get(&mut self, lang: SupportLang, deep: bool) -> &Vec<(AstGrep<D>, bool)> {
+    let thorough = self.thorough && deep;
+    self.cache.entry((lang, thorough)).or_insert_with(|| {
       let sp = spec(lang);
       let mut texts: Vec<String> = vec![];
       if lang == SupportLang::JavaScript || lang == SupportLang::TypeScript || lang == SupportLang::Tsx {
@@ -1114,6 +1117,7 @@ fn child_case(wire: &Value, sources: &mut Sources, idx: u64, out: &mut impl Writ
   let globals: Vec<String> = wire["globals"].as_array().map(|a| a.iter().filter_map(|x| x.as_str().map(|s| s.to_string())).collect()).unwrap_or_default();
   let rule = wire["rule"].as_str().unwrap_or("").to_string();
   let small_only = wire["small"].as_bool().unwrap_or(false);
+  let deep = wire["deep"].as_bool().unwrap_or(true);
   writeln!(out, "P {idx} load").ok();
   out.flush().ok();
   let mut g0 = sources.g0.take();
@@ -1142,7 +1146,7 @@ fn child_case(wire: &Value, sources: &mut Sources, idx: u64, out: &mut impl Writ
   coll.for_each_rule(|rule| {
     rules += 1;
     let lang = rule.language;
-    for (grep, is_small) in sources.get(lang) {
+    for (grep, is_small) in sources.get(lang, deep) {
       if small_only && !is_small {
         continue;
       }
@@ -1737,7 +1741,7 @@ fn main() {
       "transform_cycle_kinds": TRANS_KINDS,
       "rewriter_cycle_variants": RW_VARIANTS,
       "raw_texts": space.raws.len(),
-      "scan_sources": format!("javascript: {} crafted sources + corpus + every token string of length <= {} over the vcore::langs table; other languages: corpus + token strings", CRAFTED_JS.len(), if args.thorough() { 3 } else { 2 }),
+      "scan_sources": format!("javascript: {} crafted sources + corpus + every token string of length <= {} over the vcore::langs table{}; other languages: corpus + token strings; cycle and raw families: only the sources with <= {} nodes", CRAFTED_JS.len(), if args.thorough() { 3 } else { 2 }, if args.thorough() { " (pair substitutions: length <= 2)" } else { "" }, SMALL_NODES),
       "hang_timeout_ms": HANG_MS,
       "small_source_max_nodes": SMALL_NODES,
       "child_stack_bytes": CHILD_STACK,
